@@ -121,4 +121,8 @@ def orPanicO {α : Type} (o : Option α) (k : α → Outcome) : Outcome :=
 @[rs_eval] theorem orPanicO_some {α} (a : α) (k : α → Outcome) : orPanicO (some a) k = k a := rfl
 @[rs_eval] theorem orPanicO_none {α} (k : α → Outcome) : orPanicO none k = .panic := rfl
 
+-- [errors] BEGIN
+rs_register_eqns enumFromKeys
+-- [errors] END
+
 end ClockBound.Rs
